@@ -360,8 +360,8 @@ PROPS['C18'] = dict(
         J('h_poseidon', 'init2', 20_000, 1_000_000, only='c06.perm,c07.random,c08.random', wq=8, wt=16, tiers=['thorough'], tag='rnd', crash_only=True, class_prefix='autoinit:poseidon:'),
         # valgrind memcheck on the AVX2 build (valgrind 3.19 cannot execute AVX512): definedness of every value that reaches a branch or a syscall
         J('h_poseidon', 'fast2', 300, 300, only='c07.random,c06.perm', wq=4, wt=4, tiers=['thorough'], tag='vg', wrap=['valgrind', '-q', '--error-exitcode=99', '--track-origins=no'], crash_only=True, class_prefix='valgrind:poseidon:'),
-        J('h_cubic_batch', 'fast2', 2000, 2000, wq=4, wt=4, tiers=['thorough'], tag='vg', wrap=['valgrind', '-q', '--error-exitcode=99'], crash_only=True, class_prefix='valgrind:cubic-batch:'),
-        J('h_wrappers', 'fast2', 2000, 2000, only='c17.copy,c17.add,c17.sub,c17.mul,c17.mixed', wq=4, wt=4, tiers=['thorough'], tag='vg', wrap=['valgrind', '-q', '--error-exitcode=99'], crash_only=True, class_prefix='valgrind:wrappers:'),
+        J('h_cubic_batch', 'fast2', 2000, 2000, wq=4, wt=4, tiers=['thorough'], tag='vg', wrap=['valgrind', '-q', '--error-exitcode=99'], crash_only=True, class_prefix='valgrind:cubic-batch:', env={'PBT_NO_HUGE': '1'}),
+        J('h_wrappers', 'fast2', 2000, 2000, only='c17.copy,c17.add,c17.sub,c17.mul,c17.mixed', wq=4, wt=4, tiers=['thorough'], tag='vg', wrap=['valgrind', '-q', '--error-exitcode=99'], crash_only=True, class_prefix='valgrind:wrappers:', env={'PBT_NO_HUGE': '1'}),
     ],
     rule='The generators of C03-C09, C13, C14, C16, C17, C19 re-run on AddressSanitizer + UndefinedBehaviorSanitizer builds (-O1, AVX2 and -D__AVX512__ configurations) with EXACT-SIZE heap allocations for every declared extent '
          '(inputs, outputs, scratch buffers, trees, strided arenas end at the last designated cell), so one element past any extent is a report; UBSan covers integer/shift/alignment/VLA-bound UB; alloc-dealloc-mismatch covers the destructors; '
